@@ -38,7 +38,15 @@ class Monitor:
         cs = world.cs
         head = cs.current_chain_hash
         led = world.ledger(head)
-        before = {(r.hash, r.index) for r in wallet.spent_transaction_outputs}
+        # the harness keeps its OWN record of what this wallet object has used (inputs of the transactions it returned);
+        # the wallet's record must agree with it
+        before_wallet = {(r.hash, r.index) for r in wallet.spent_transaction_outputs}
+        before = set(history.setdefault("record", set()))
+        if before_wallet != before:
+            self.v("used-output-record-differs-from-what-this-wallet-returned", "before the call the wallet's record of used outputs "
+                   "has %d entries, the transactions this wallet object returned used %d (%d recorded but never used by it)" % (
+                       len(before_wallet), len(before), len(before_wallet - before)), dict(w, amount=amount, fee=fee))
+            before = before | before_wallet if history.get("tolerate_record") else before
         owned = {r: vk for r, vk in led.items() if vk[1] in wallet.keypairs}
         spendable = sum(v for r, (v, k) in owned.items() if r not in before)
         c["calls"] += 1
@@ -57,6 +65,7 @@ class Monitor:
         except Exception as e:
             c["raised"] += 1
             after = {(r.hash, r.index) for r in wallet.spent_transaction_outputs}
+            before = before_wallet
             if spendable >= amount + fee:
                 c["raised_affordable"] += 1
                 key = "affordable-spend-refused-after-failed-attempt" if history["failed_before"] and history["marked_by_failure"] \
@@ -98,6 +107,7 @@ class Monitor:
             if r in history["spent_by_returned"]:
                 self.v("reuses-output-of-earlier-spend", "input appears in an earlier returned transaction", ww)
         history["spent_by_returned"].update(refs)
+        history["record"].update(refs)
         if not rtx.outputs or rtx.outputs[0] != (amount, recipient):
             self.v("recipient-not-paid-exactly", "first output %s, requested (%d, recipient)" % (
                 (rtx.outputs[0][0], rtx.outputs[0][1].hex()[:8]) if rtx.outputs else None, amount), ww)
@@ -174,6 +184,19 @@ class Monitor:
             rtx = self.call(wmod, cons, wallet, world, amount, fee, recipient, change_key, history, w)
             if rtx is not None:
                 pending.append(rtx)
+            if rng.random() < 0.15:
+                # the wallet is closed and opened again (another process, or a second wallet object over the same key file):
+                # the record of used outputs is not part of the file, so the new object starts with an empty one
+                import io
+                buf = io.StringIO()
+                wallet.dump(buf)
+                buf.seek(0)
+                wallet = wmod.Wallet.load(buf)
+                history["record"] = set()
+                history["spent_by_returned"] = set()
+                history["failed_before"] = history["marked_by_failure"] = False
+                c["wallet_reopened"] = c.get("wallet_reopened", 0) + 1
+                w["calls"].append(["reopen"])
             if rng.random() < 0.12 and len(world.chain.order) > 2:
                 # reorganisation: a competing branch off the head's parent (without the wallet's transactions) overtakes;
                 # outputs whose spends were confirmed on the abandoned branch are unspent again at the new head, yet they
@@ -195,7 +218,11 @@ class Monitor:
             if pending and rng.random() < 0.3:
                 # confirm the pending spends in a new block on the head
                 parent = world.chain.blocks[head]
-                ok = [t for t in pending if not ref.tx_codes_in_ledger(t, led)]
+                ok, taken = [], set()
+                for t in pending:       # (after a re-open two pending spends may use the same output: only one can be confirmed)
+                    if not ref.tx_codes_in_ledger(t, led) and not (set(t.refs()) & taken):
+                        ok.append(t)
+                        taken.update(t.refs())
                 try:
                     rb, real = world.assemble(head, ok, parent.ts + 60, rng.choice(foreign + list(wallet.keypairs)))
                     world.accept(rb, real, now=rb.ts)
@@ -275,7 +302,17 @@ def replay(mon, w):
     keys = [bytes.fromhex(x) for x in w["wallet_keys"]]
     wallet = wmod.Wallet({pk: world.sk_by_pk[pk] for pk in keys}, [], {pk: "a" for pk in keys})
     history = {"n": 0, "failed_before": False, "marked_by_failure": False, "spent_by_returned": set()}
-    for (amount, fee, rec, chg) in w["calls"]:
+    for call in w["calls"]:
+        if call[0] == "reopen":
+            import io
+            buf = io.StringIO()
+            wallet.dump(buf)
+            buf.seek(0)
+            wallet = wmod.Wallet.load(buf)
+            history["record"] = set()
+            history["spent_by_returned"] = set()
+            continue
+        (amount, fee, rec, chg) = call
         mon.call(wmod, cons, wallet, world, amount, fee, bytes.fromhex(rec), bytes.fromhex(chg), history, w)
 
 
@@ -301,7 +338,7 @@ def finalize(m, tier):
                 "at single-output values and subset sums (+-1), fees 0..12345, optionally confirming pending spends in a new "
                 "block between calls; every sequence of 3/4 requests from a 19-request alphabet on a small wallet (exhaustive small "
                 "scope); distinct = distinct (owned outputs, used record, amount, fee) by digest",
-        "floors": [("calls", c.get("calls", 0), 1000), ("returned", c.get("returned", 0), 300), ("raised", c.get("raised", 0), 200),
+        "floors": [("wallet_reopened", c.get("wallet_reopened", 0), 100), ("calls", c.get("calls", 0), 1000), ("returned", c.get("returned", 0), 300), ("raised", c.get("raised", 0), 200),
                    ("exact_no_change", c.get("exact_no_change", 0), 30), ("with_change", c.get("with_change", 0), 150),
                    ("multi_input", c.get("multi_input", 0), 100),
                    ("calls_after_a_failed_attempt", c.get("calls_after_a_failed_attempt", 0), 100),
